@@ -426,6 +426,25 @@ func (c *Cluster) DeposeLeader(p *Partition) {
 	}
 }
 
+// MoveBrokerAddr re-registers a broker (same node id) under another host
+// name and/or port: the old endpoint stops listening and its connections are
+// reset, the metadata advertises the new endpoint from now on.
+func (c *Cluster) MoveBrokerAddr(b *Broker, host string, port int32) {
+	if b.Up {
+		c.N.Unlisten(b.Addr())
+		for _, cn := range c.N.Conns() {
+			if cn.H == Handler(b) && !cn.ServerDead() {
+				cn.ServerReset()
+			}
+		}
+	}
+	b.Host, b.Port = host, port
+	if b.Up {
+		c.N.Listen(b.Addr(), b)
+	}
+	c.S.Count("fault:broker-readdressed")
+}
+
 // SetBrokerUp takes a broker down (connections reset, listener gone) or up.
 func (c *Cluster) SetBrokerUp(b *Broker, up bool) {
 	if b.Up == up {
